@@ -134,7 +134,7 @@ func judge(eng *Engine, cfg *Config, ck *CheckCfg, property, tier string, seed i
 				}
 				v.Label = ck.Prefix + " " + crashLabel(r.Kind)
 			} else if r.Kind == "assert-violated" {
-				if !strings.HasPrefix(r.Label, ck.Prefix+" ") && r.Label != ck.Prefix {
+				if !strings.HasPrefix(r.Label, ck.Prefix+" ") && r.Label != ck.Prefix && !strings.HasPrefix(r.Label, "SUMMARY ") {
 					continue // another property's label
 				}
 			}
@@ -329,16 +329,16 @@ func judge(eng *Engine, cfg *Config, ck *CheckCfg, property, tier string, seed i
 	}
 	sort.Slice(fl, func(i, j int) bool { return fl[i].Name < fl[j].Name })
 	var bounds []map[string]interface{}
-	seenE := map[string]bool{}
-	ntasks := map[string]int{}
+	seenE := map[*EntryCfg]bool{}
+	ntasks := map[*EntryCfg]int{}
 	for _, t := range tasks {
-		ntasks[t.Entry.Entry]++
+		ntasks[t.Entry]++
 	}
 	for _, t := range tasks {
-		if seenE[t.Entry.Entry] {
+		if seenE[t.Entry] {
 			continue
 		}
-		seenE[t.Entry.Entry] = true
+		seenE[t.Entry] = true
 		uw := unwind
 		if t.Entry.Unwind > 0 {
 			uw = t.Entry.Unwind
@@ -352,7 +352,7 @@ func judge(eng *Engine, cfg *Config, ck *CheckCfg, property, tier string, seed i
 			stubs = append(stubs, q+" => "+r)
 		}
 		sort.Strings(stubs)
-		bounds = append(bounds, map[string]interface{}{"entry": t.Entry.Entry, "package": t.Entry.Pkg, "case_grid": g, "tasks": ntasks[t.Entry.Entry], "loop_unwind_per_activation": uw,
+		bounds = append(bounds, map[string]interface{}{"entry": t.Entry.Entry, "package": t.Entry.Pkg, "case_grid": g, "tasks": ntasks[t.Entry], "loop_unwind_per_activation": uw,
 			"path_kinds": perEntry[t.Entry.Entry], "stubs": stubs, "native_replay": t.Entry.Native == nil || *t.Entry.Native})
 	}
 	var vs []map[string]interface{}
